@@ -104,8 +104,8 @@ func init() {
 	mon.Register(&mon.Check{
 		ID:               "C01",
 		CrashIsViolation: true,
-		Rule: "evaluations = Lint*Ex calls monitored (object x registry); distinct_nontrivial (de-duplicated by a hash of the DER bytes within each worker process) = distinct accepted input objects (corpus seeds + parser-accepted structure-aware DER mutants, de-duplicated by case index) on which at least one lint left NA. Each call is judged online: returned normally, key set == names of the matching kind found by ByName over Names(), non-nil results, metadata equal to the registry's, status in 1..7, four *Present flags == OR over results, Version == major version in go.mod.",
-		Assumptions: []string{"inputs the zcrypto / x-crypto parsers reject or panic on are outside the quantifier", "no-hang is observed as 'no worker stall beyond the watchdog, reproduced in isolation'"},
+		Rule:             "evaluations = Lint*Ex calls monitored (object x registry); distinct_nontrivial (de-duplicated by a hash of the DER bytes within each worker process) = distinct accepted input objects (corpus seeds + parser-accepted structure-aware DER mutants, de-duplicated by case index) on which at least one lint left NA. Each call is judged online: returned normally, key set == names of the matching kind found by ByName over Names(), non-nil results, metadata equal to the registry's, status in 1..7, four *Present flags == OR over results, Version == major version in go.mod.",
+		Assumptions:      []string{"inputs the zcrypto / x-crypto parsers reject or panic on are outside the quantifier", "no-hang is observed as 'no worker stall beyond the watchdog, reproduced in isolation'"},
 		Setup: func(c *mon.Ctx) error {
 			if err := setupCommon(c); err != nil {
 				return err
